@@ -86,10 +86,10 @@ JOBS = [
     dict(name='c18_abort_b', entry='h_abort', functions=['carquet_writer_abort'], checks=LEAK, est_s=4, **BND, **W),
     # ---- carquet_writer_create / carquet_writer_create_file failure paths (fopen, strdup, calloc, realloc, arena fail) ----
     dict(name='c18_create_b', entry='h_create', functions=['carquet_writer_create', 'add_column_internal', 'carquet_writer_abort'],
-         checks=LEAK, cbmc_flags=['--malloc-may-fail', '--malloc-fail-null'], est_s=120, tier='thorough', **CRE, **W),
+         checks=LEAK, cbmc_flags=['--malloc-may-fail', '--malloc-fail-null'], est_s=120, tier='quick', **CRE, **dict(W, props=['C18', 'C19'])),   # C19: every allocation of writer creation may fail; no leak, no double free
     dict(name='c18_create_file_b', entry='h_create_file',
          functions=['carquet_writer_create_file', 'add_column_internal', 'carquet_writer_abort'],
-         checks=LEAK, cbmc_flags=['--malloc-may-fail', '--malloc-fail-null'], est_s=120, tier='thorough', **CRE, **W),
+         checks=LEAK, cbmc_flags=['--malloc-may-fail', '--malloc-fail-null'], est_s=120, tier='thorough', **CRE, **dict(W, props=['C18', 'C19'])),
     dict(name='c18_create_no_file_left_b', entry='h_create', functions=['carquet_writer_create'], wip=True, tier='thorough',
          checks=LEAK, cbmc_flags=['--malloc-may-fail', '--malloc-fail-null'],
          note='OBSERVATION, not a property-level obligation: a failed carquet_writer_create that had already opened the file '
